@@ -57,11 +57,23 @@ PHYLO_MODELS = {"JC69": [5], "HKY_kappa": [5, 1], "HKY_freqs": [5, 3]}
 
 
 # ----------------------------------------------------------------------------- generation
-def _logu_grid(lo, hi, n=4000):
-    """log-uniform on a grid of n+1 points (bounded by construction; an integer draw spreads evenly,
-    whereas a float draw is deliberately biased towards its end points)"""
+def _spread(values):
+    """the same values in bit-reversed order of their rank: Hypothesis favours the first entries of a
+    sampled_from list, so any prefix of the list should cover the whole range (the first entry, which is
+    what shrinking converges to, stays the smallest)"""
+    values = list(values)
+    nb = max(1, (len(values) - 1).bit_length())
+    order = sorted(range(len(values)), key=lambda i: int(format(i, "0%db" % nb)[::-1], 2))
+    return [values[i] for i in order]
+
+
+def _logu_grid(lo, hi):
+    """log-uniform on a grid of 4096 points, drawn as two small choices (floats are biased to their end
+    points and wide integer ranges to small values, small ranges are drawn evenly)"""
     a, b = math.log(lo), math.log(hi)
-    return st.integers(0, n).map(lambda k: min(hi, max(lo, math.exp(a + (b - a) * k / n))))
+    return st.tuples(st.sampled_from(_spread(range(64))), st.sampled_from(range(64))).map(
+        lambda t: min(hi, max(lo, math.exp(a + (b - a) * (64 * t[0] + t[1]) / 4095.0)))
+    )
 
 
 def _spd(draw, d, smin, smax, cmin):
@@ -98,7 +110,7 @@ def cases(draw, targets=("block", "block", "mvn", "phylo"), max_L=30, phylo_max_
     # the knobs first, the bulk of the numbers afterwards (late draws of a long example are the
     # ones Hypothesis fills with minimal values when it runs out of entropy)
     eps = draw(_logu_grid(eps_lo, 0.5))
-    L = draw(st.integers(1, phylo_max_L if target == "phylo" else max_L))
+    L = draw(st.sampled_from(_spread(range(1, (phylo_max_L if target == "phylo" else max_L) + 1))))
     mass_kind = draw(st.sampled_from(list(masses)))
     if target == "phylo":
         model = draw(st.sampled_from(sorted(PHYLO_MODELS)))
@@ -109,9 +121,9 @@ def cases(draw, targets=("block", "block", "mvn", "phylo"), max_L=30, phylo_max_
         c["seqs"] = ["".join(draw(st.sampled_from("ACGTACGTACGTACGTN-")) for _ in range(nsites)) for _ in range(4)]
         q0 = [draw(fl(-4.0, -0.5)) for _ in range(5)]
         if model == "HKY_kappa":
-            q0 += [draw(fl(-1.0, 2.0))]
+            q0 += [draw(fl(0.3, 2.0))]
         elif model == "HKY_freqs":
-            q0 += [draw(fl(-1.0, 1.0)) for _ in range(3)]
+            q0 += [draw(fl(0.1, 1.0)) for _ in range(3)]
     else:
         d = draw(st.integers(1, 8))
         npar = draw(st.integers(1, min(3, d)))
@@ -251,14 +263,44 @@ class Oracle:
     """logp / grad of the case's target, independent of the instance under test"""
 
     def __init__(self, c):
+        self.c = c
         if c["target"] == "phylo":
             self._b = Built(c)
-            self.logp = lambda q: self._b.logp_grad(q)[0]
-            self.grad = lambda q: self._b.logp_grad(q)[1]
+            self.logp = lambda q: self._fresh(q)[0]
+            self.grad = lambda q: self._fresh(q)[1]
         else:
             t = lf.BlockTarget(c["blocks"])
             self.logp = t.logp
             self.grad = t.grad
+
+    def _fresh(self, q):
+        # a point where the density itself cannot be evaluated is outside the guarded region
+        # (reported by the properties about the density), never a C16 failure
+        if not np.all(np.isfinite(q)):
+            return float("nan"), np.full(len(q), np.nan)
+        try:
+            return self._b.logp_grad(q)
+        except Exception:  # noqa
+            return float("nan"), np.full(len(q), np.nan)
+
+    def margin(self, traj):
+        """distance of the trajectory from the locus where HKY's rate matrix has a repeated eigenvalue
+        (kappa = 1, or pi_A + pi_G = 1/2): there the eigendecomposition-based gradient is 0/0 (DESIGN 8 #21),
+        near it it loses digits; inf for targets without such a locus"""
+        c = self.c
+        if c["target"] != "phylo" or c["model"] == "JC69":
+            return float("inf")
+        m = float("inf")
+        for q, _ in traj:
+            if c["model"] == "HKY_kappa":
+                m = min(m, abs(float(q[5])))
+            else:
+                x = np.asarray(q[5:8], dtype=float)
+                z = 1.0 / (1.0 + np.exp(-(x - np.log(np.array([3.0, 2.0, 1.0])))))
+                rem = np.concatenate([[1.0], np.cumprod(1.0 - z)])
+                pi = np.concatenate([z, [1.0]]) * rem
+                m = min(m, abs(float(pi[0] + pi[2] - 0.5)))
+        return m
 
 
 def mass_np(c):
@@ -297,9 +339,16 @@ def _lab(res, *labs):
 
 
 def _reference(c, orc, q0, p0, eps, L, minv):
+    """reference trajectory, round-off amplification, and the reason (or None) why nothing may be asserted"""
     ref = lf.leapfrog(q0, p0, eps, L, minv, orc.grad)
+    if not ref["finite"]:
+        return ref, float("inf"), "guard:unstable"
+    if not orc.margin(ref["traj"]) >= 1e-2:
+        return ref, float("inf"), "guard:degenerate_eigenvalues"
     amp = lf.amplification(q0, p0, eps, L, minv, orc.grad, base=ref)
-    return ref, amp
+    if not amp <= AMP_MAX:
+        return ref, amp, "guard:unstable"
+    return ref, amp, None
 
 
 # ----------------------------------------------------------------------------- (a) + (b)
@@ -312,16 +361,16 @@ def body_trajectory(c, which):
     q0 = np.asarray(c["q0"], dtype=float)
     p0 = np.asarray(c["p0"], dtype=float)
     eps, L = c["eps"], c["L"]
-    ref, amp = _reference(c, orc, q0, p0, eps, L, minv)
-    if not ref["finite"] or not amp <= AMP_MAX:
-        _lab(res, "guard:unstable")
+    ref, amp, why = _reference(c, orc, q0, p0, eps, L, minv)
+    if why:
+        _lab(res, why)
         return res
     S = ref["scale"]
     if which == "reversal":
         # the way back retraces the trajectory; its own probe must pass as well
-        back, amp2 = _reference(c, orc, ref["q"], -ref["p"], eps, L, minv)
-        if not back["finite"] or not amp2 <= AMP_MAX:
-            _lab(res, "guard:unstable")
+        back, amp2, why = _reference(c, orc, ref["q"], -ref["p"], eps, L, minv)
+        if why:
+            _lab(res, why)
             return res
         S = max(S, back["scale"])
     b = Built(c)
@@ -368,9 +417,9 @@ def body_volume(c):
     p0 = np.asarray(c["p0"], dtype=float)
     eps, L = c["eps"], c["L"]
     d = q0.size
-    ref, amp = _reference(c, orc, q0, p0, eps, L, minv)
-    if not ref["finite"] or not amp <= AMP_MAX:
-        _lab(res, "guard:unstable")
+    ref, amp, why = _reference(c, orc, q0, p0, eps, L, minv)
+    if why:
+        _lab(res, why)
         return res
     b = Built(c)
     integ = build_integrator(eps, L)
@@ -442,9 +491,9 @@ def body_energy(c):
         return res
     refs, S = [], 1.0
     for e_, L_ in levels:
-        ref, amp = _reference(c, orc, q0, p0, e_, L_, minv)
-        if not ref["finite"] or not amp <= AMP_MAX:
-            _lab(res, "guard:unstable")
+        ref, amp, why = _reference(c, orc, q0, p0, e_, L_, minv)
+        if why:
+            _lab(res, why)
             return res
         S = max(S, ref["scale"])
         refs.append(ref)
@@ -563,10 +612,10 @@ def body_operator(c):
         p0 = arr(p0s[-1])
         if p0.shape != (d,) or not np.all(np.isfinite(p0)):
             return res.fail("momentum_shape", {"shape": list(p0.shape), "dim": d})
-        ref, amp = _reference(c, orc, q_cur, p0, eps, L, minv)
-        if not ref["finite"] or not amp <= AMP_MAX:
+        ref, amp, why = _reference(c, orc, q_cur, p0, eps, L, minv)
+        if why:
             # outside the guarded region nothing is asserted about the numbers
-            _lab(res, "guard:unstable")
+            _lab(res, why)
             return res
         if len(p0s) != 1 or len(p1s) != 1:
             return res.fail("retries", {"draws": len(p0s), "integrations": len(p1s)})
